@@ -1,4 +1,4 @@
 From Coq Require Extraction ExtrOcamlBasic.
-From Centro Require Import Base.Sx Spec.MaskCheck.
+From Centro Require Import Base.Sx Spec.MaskCheck Model.MaskRef.
 Extraction Language OCaml.
-Extraction "extracted/c12.ml" entry_agree_in entry_agree_out.
+Extraction "extracted/c12.ml" entry_agree_in entry_agree_out entry_ref.
